@@ -78,7 +78,9 @@ func (dst *Buffer[D]) Append(src *Buffer[D]) {
 	mustSame(dst.Channels(), src.Channels(), diffChannels)
 	offset, length := dst.Len(), src.Len()
 	if dst.Cap() < offset+length {
-		dst.data = append(dst.data, make([]D, length)...)
+		// grow by whole frames, so that the aligned capacity covers the length.
+		frames := ChannelLength(offset+length, dst.Channels())
+		dst.data = append(dst.data, make([]D, frames*dst.Channels()-offset)...)[:offset+length]
 	} else {
 		dst.data = dst.data[:offset+length]
 	}
